@@ -65,7 +65,7 @@ package server
 //@ func Loop$2$1
 //@   root
 //@   captures sctx != nil && wfServer(srv)
-//@   modifies monitor(Server, srv), fired, chCloses
+//@   modifies monitor(Server, srv), fired, chCloses, retained
 
 // NetAccepter: an Accept failure yields no channel and is always the
 // listener's own error - when the context ends that is the closed-listener
